@@ -38,6 +38,8 @@ type lcOp struct {
 	Kind  string        `json:"kind,omitempty"` // modification kind / spend kind
 	Fail  bool          `json:"fail,omitempty"` // wallet cannot fund
 	BV    int           `json:"bv,omitempty"`   // batch version
+	K2    int           `json:"k2,omitempty"`   // second account of a concurrent delivery
+	Kind2 string        `json:"kind2,omitempty"`
 	Accts []lcStageAcct `json:"accts,omitempty"`
 }
 
@@ -201,53 +203,67 @@ func (e *lcEnv) snapshot() lcSnap {
 	return s
 }
 
+// i1 checks record <-> latest transaction consistency of one (stored or
+// staged) record.
+func (e *lcEnv) i1(i int, a *account.Account, tag string) (string, string) {
+	out, err := lcOutput(a)
+	if err != nil {
+		return fmt.Sprintf("%saccount %d: no output script: %v", tag, i, err), "C08/i1-output"
+	}
+	switch a.State {
+	case account.StatePendingOpen, account.StatePendingUpdate, account.StatePendingBatch,
+		account.StateOpen, account.StateExpired, account.StateExpiredPendingUpdate:
+
+		switch {
+		case a.LatestTx == nil:
+			return fmt.Sprintf("%saccount %d in %v has no latest transaction", tag, i, a.State), "C08/i1-nil"
+		case a.LatestTx.TxHash() != a.OutPoint.Hash:
+			return fmt.Sprintf("%saccount %d in %v: outpoint %v is not an output of the stored latest tx %v",
+				tag, i, a.State, a.OutPoint, a.LatestTx.TxHash()), "C08/i1-hash"
+		case int(a.OutPoint.Index) >= len(a.LatestTx.TxOut):
+			return fmt.Sprintf("%saccount %d in %v: outpoint index %d out of range", tag, i, a.State,
+				a.OutPoint.Index), "C08/i1-index"
+		}
+		o := a.LatestTx.TxOut[a.OutPoint.Index]
+		if o.Value != out.Value || !bytes.Equal(o.PkScript, out.PkScript) {
+			return fmt.Sprintf("%saccount %d in %v: stored value/script (%d, batch key #%d) differ from output %d of the latest tx (%d)",
+				tag, i, a.State, out.Value, lcBatchCounter(a.BatchKey), a.OutPoint.Index, o.Value), "C08/i1-output"
+		}
+	case account.StatePendingClosed:
+		if a.LatestTx == nil {
+			return fmt.Sprintf("%saccount %d pending closed without latest tx", tag, i), "C08/i1-nil"
+		}
+		found := false
+		for _, in := range a.LatestTx.TxIn {
+			if in.PreviousOutPoint == a.OutPoint {
+				found = true
+			}
+		}
+		if !found {
+			return fmt.Sprintf("%saccount %d pending closed: latest tx does not spend the stored outpoint %v",
+				tag, i, a.OutPoint), "C08/i1-closing"
+		}
+	}
+	return "", ""
+}
+
 // oracle evaluates the property text on the real store / registrations /
 // call log after one step. viaBatch marks steps that apply a staged batch.
 func (e *lcEnv) oracle(before lcSnap, logFrom int, userOp string, userAccepted bool, hist []string) (string, string) {
-	main, _ := e.records()
+	main, stagedRecs := e.records()
 	for i := 1; i <= lcNumAccts; i++ {
+		// the staged copy of a batch must describe the batch transaction
+		if b, ok := stagedRecs[i]; ok {
+			if what, key := e.i1(i, b, "staged copy of "); what != "" {
+				return what, key
+			}
+		}
 		a, ok := main[i]
 		if !ok {
 			continue
 		}
-		out, err := lcOutput(a)
-		if err != nil {
-			return fmt.Sprintf("account %d: no output script: %v", i, err), "C08/i1-output"
-		}
-		// ---- I1: record <-> latest transaction
-		switch a.State {
-		case account.StatePendingOpen, account.StatePendingUpdate, account.StatePendingBatch,
-			account.StateOpen, account.StateExpired, account.StateExpiredPendingUpdate:
-
-			switch {
-			case a.LatestTx == nil:
-				return fmt.Sprintf("account %d in %v has no latest transaction", i, a.State), "C08/i1-nil"
-			case a.LatestTx.TxHash() != a.OutPoint.Hash:
-				return fmt.Sprintf("account %d in %v: outpoint %v is not an output of the stored latest tx %v",
-					i, a.State, a.OutPoint, a.LatestTx.TxHash()), "C08/i1-hash"
-			case int(a.OutPoint.Index) >= len(a.LatestTx.TxOut):
-				return fmt.Sprintf("account %d in %v: outpoint index %d out of range", i, a.State,
-					a.OutPoint.Index), "C08/i1-index"
-			}
-			o := a.LatestTx.TxOut[a.OutPoint.Index]
-			if o.Value != out.Value || !bytes.Equal(o.PkScript, out.PkScript) {
-				return fmt.Sprintf("account %d in %v: stored value/script (%d) differ from output %d of the latest tx (%d)",
-					i, a.State, out.Value, a.OutPoint.Index, o.Value), "C08/i1-output"
-			}
-		case account.StatePendingClosed:
-			if a.LatestTx == nil {
-				return fmt.Sprintf("account %d pending closed without latest tx", i), "C08/i1-nil"
-			}
-			found := false
-			for _, in := range a.LatestTx.TxIn {
-				if in.PreviousOutPoint == a.OutPoint {
-					found = true
-				}
-			}
-			if !found {
-				return fmt.Sprintf("account %d pending closed: latest tx does not spend the stored outpoint %v",
-					i, a.OutPoint), "C08/i1-closing"
-			}
+		if what, key := e.i1(i, a, ""); what != "" {
+			return what, key
 		}
 		// ---- I2: watched for the event the state waits for
 		if e.started {
@@ -518,7 +534,7 @@ func (x *lcRunner) exec(o lcOp) {
 		accepted bool
 	)
 	key := func(k int) *btcec.PublicKey { return e.accts[k].key.PubKey }
-	completes := o.Op == "complete" || o.Op == "finalize" ||
+	completes := o.Op == "complete" || o.Op == "finalize" || o.Op == "spend2" ||
 		((o.Op == "spend" || o.Op == "spendd") && (o.Kind == "latest" || o.Kind == "staged" || o.Kind == "foreign"))
 	if completes && e.staleBatch && len(e.batchAccts) > 0 {
 		if e.allowStale {
@@ -530,6 +546,31 @@ func (x *lcRunner) exec(o lcOp) {
 			e.logMu.Lock()
 			logFrom = len(e.log)
 			e.logMu.Unlock()
+		}
+	}
+	// "a spend that re-creates the expected next output keeps the account alive": the
+	// accounts whose reported spending transaction carries their next output
+	expectAlive := map[int]bool{}
+	if o.Op == "spend" || o.Op == "spend2" {
+		mainB, stagedB := e.records()
+		mark := func(k int, kind string) {
+			switch kind {
+			case "staged":
+				if b := stagedB[k]; b != nil && b.State == account.StatePendingBatch && mainB[k] != nil &&
+					mainB[k].State != account.StateClosed {
+					expectAlive[k] = true
+				}
+			case "latest":
+				if a := mainB[k]; a != nil && a.LatestTx != nil && a.LatestTx.TxHash() == a.OutPoint.Hash &&
+					(a.State == account.StatePendingUpdate || a.State == account.StatePendingBatch ||
+						a.State == account.StateExpiredPendingUpdate) {
+					expectAlive[k] = true
+				}
+			}
+		}
+		mark(o.K, o.Kind)
+		if o.Op == "spend2" {
+			mark(o.K2, o.Kind2)
 		}
 	}
 	inBatchBefore := e.inBatch(o.K)
@@ -692,6 +733,60 @@ func (x *lcRunner) exec(o lcOp) {
 		}
 		r.Count("spend/" + o.Kind)
 
+	case "spend2":
+		// two spend notifications (e.g. confirmed in the same block) handled by two
+		// controller goroutines at the same time
+		regsA, regsB := e.notifier.liveRegs(o.K, false), e.notifier.liveRegs(o.K2, false)
+		if len(regsA) == 0 || len(regsB) == 0 || o.K == o.K2 {
+			return
+		}
+		h := e.height + 1
+		rgA, rgB := regsA[len(regsA)-1], regsB[len(regsB)-1]
+		detA, nameA, okA := x.spendDetail(o.K, o.Kind, rgA.op, h)
+		detB, nameB, okB := x.spendDetail(o.K2, o.Kind2, rgB.op, h)
+		admissible := func(det *chainntnfs.SpendDetail, op wire.OutPoint) bool {
+			in := det.SpendingTx.TxIn[det.SpenderInputIndex]
+			return in.PreviousOutPoint == op && (poolscript.IsExpirySpend(in.Witness) ||
+				poolscript.IsMultiSigSpend(in.Witness) || poolscript.IsTaprootMultiSigSpend(in.Witness) ||
+				poolscript.IsTaprootExpirySpend(in.Witness))
+		}
+		staleMix := (e.inBatch(o.K) && o.Kind == "sweep") || (e.inBatch(o.K2) && o.Kind2 == "sweep")
+		if !okA || !okB || !admissible(detA, rgA.op) || !admissible(detB, rgB.op) || (staleMix && !e.allowStale) {
+			r.Count("spend2/skipped-inapplicable")
+			return
+		}
+		line = fmt.Sprintf("spend2 %d %d %s %d %d %d %s %d %d", o.K, len(regsA)-1, o.Kind, nameA,
+			o.K2, len(regsB)-1, o.Kind2, nameB, h)
+		e.barrier = newLcBarrier()
+		rgA.fired, rgB.fired = true, true
+		doneA := false
+		select {
+		case rgA.spendCh <- detA:
+		case <-time.After(5 * time.Second):
+			x.fail("spend notification not consumed by the controller", "C08/harness")
+		}
+		// wait until handler A is inside the pending-batch section (or has finished)
+		select {
+		case <-e.barrier.first:
+			r.Count("spend2/overlapping")
+		case <-e.spendDone:
+			doneA = true
+			r.Count("spend2/sequential")
+		}
+		select {
+		case rgB.spendCh <- detB:
+		case <-time.After(5 * time.Second):
+			x.fail("spend notification not consumed by the controller", "C08/harness")
+		}
+		<-e.spendDone
+		if !doneA {
+			<-e.spendDone
+		}
+		e.barrier = nil
+		e.logMu.Lock()
+		res = lcRes(e.handlerErr[o.K]) + "+" + lcRes(e.handlerErr[o.K2])
+		e.logMu.Unlock()
+
 	case "spendd":
 		h := e.height + 1
 		op := wire.OutPoint{}
@@ -775,13 +870,33 @@ func (x *lcRunner) exec(o lcOp) {
 	r.Emit("C08 "+line, out)
 	x.hist = append(x.hist, line+" => "+out)
 	r.Count("res/" + res)
+	if o.Op == "spend2" {
+		r.Count("spend2/" + o.Kind + "+" + o.Kind2)
+	}
 	for i, st := range e.snapshot().state {
 		if before.state[i] != st || before.rec[i] == "" {
 			r.Count(fmt.Sprintf("state/%s", st))
 		}
 	}
+	if x.bad == "" && !strings.Contains(res, "err") {
+		after := e.snapshot()
+		for k := range expectAlive {
+			if after.state[k] == account.StateClosed {
+				x.fail(fmt.Sprintf("after op #%d (%s): account %d was closed although the spending transaction re-creates its next output",
+					len(x.hist)-1, line, k), "C08/recreated-but-closed")
+			}
+		}
+	}
 	if x.bad == "" {
+		// a bare MarkBatchComplete is the crash point between BatchFinalize and
+		// WatchMatchedAccounts in the rpc server: the restart follows at once, the
+		// watcher clause is evaluated after it
+		started := e.started
+		if o.Op == "complete" {
+			e.started = false
+		}
 		what, k := e.oracle(before, logFrom, userOp, accepted, x.hist)
+		e.started = started
 		if what != "" && strings.HasPrefix(k, "C08/i2-") && len(batchBefore) > 0 && len(e.batchAccts) == 0 &&
 			o.Op != "finalize" && o.Op != "drop" {
 			// MarkBatchComplete ran for the whole batch (bare completion, or triggered by
@@ -789,7 +904,7 @@ func (x *lcRunner) exec(o lcOp) {
 			var acc int
 			fmt.Sscanf(what, "account %d", &acc)
 			for _, j := range batchBefore {
-				if j == acc && (o.Op == "complete" || j != o.K) {
+				if j == acc && (o.Op == "complete" || (j != o.K && !(o.Op == "spend2" && j == o.K2))) {
 					k = "C08/complete-without-rewatch"
 				}
 			}
@@ -822,6 +937,12 @@ func (x *lcRunner) stage(o lcOp) (string, string) {
 	for _, sa := range o.Accts {
 		a, ok := main[sa.K]
 		if !ok {
+			return "", ""
+		}
+		// A2: the auctioneer only matches accounts that are open or pending batch
+		// (a replayed stage op may find the account in another state)
+		if a.State != account.StateOpen && a.State != account.StatePendingBatch && !e.allowStale {
+			x.r.Count("stage/skipped-A2")
 			return "", ""
 		}
 		tx.AddTxIn(&wire.TxIn{PreviousOutPoint: a.OutPoint})
@@ -1000,6 +1121,45 @@ func (x *lcRunner) gen() lcOp {
 	}
 	confs := e.notifier.liveRegs(k, true)
 	spends := e.notifier.liveRegs(k, false)
+	// two transactions confirmed in the same block: concurrent spend handlers
+	if rng.Intn(100) < 12 {
+		type cand struct {
+			k    int
+			kind string
+		}
+		var cs []cand
+		for j := 1; j <= lcNumAccts; j++ {
+			b, ok := main[j]
+			regs := e.notifier.liveRegs(j, false)
+			if !ok || len(regs) == 0 {
+				continue
+			}
+			op := regs[len(regs)-1].op
+			spendsOp := func(tx *wire.MsgTx) bool {
+				if tx == nil {
+					return false
+				}
+				for _, in := range tx.TxIn {
+					if in.PreviousOutPoint == op {
+						return true
+					}
+				}
+				return false
+			}
+			switch {
+			case staged[j] != nil && spendsOp(staged[j].LatestTx):
+				cs = append(cs, cand{j, "staged"})
+			case spendsOp(b.LatestTx):
+				cs = append(cs, cand{j, "latest"})
+			case rng.Intn(3) == 0:
+				cs = append(cs, cand{j, pick("sweep", "foreign")})
+			}
+		}
+		if len(cs) >= 2 {
+			rng.Shuffle(len(cs), func(i, j int) { cs[i], cs[j] = cs[j], cs[i] })
+			return lcOp{Op: "spend2", K: cs[0].k, Kind: cs[0].kind, K2: cs[1].k, Kind2: cs[1].kind}
+		}
+	}
 	spendKind := func(rg *lcReg) string {
 		var cands []string
 		if a.LatestTx != nil {
@@ -1131,7 +1291,10 @@ func lcRunHistory(r *Run, ops []lcOp, n int, restartAt int, tag string) []lcOp {
 	step := func(o lcOp) {
 		x.exec(o)
 		done = append(done, o)
-		if o.Op == "restart" {
+		if o.Op == "complete" {
+			x.exec(lcOp{Op: "restart"})
+		}
+		if o.Op == "restart" || o.Op == "complete" {
 			// lnd sends the current block right after the registration
 			x.exec(lcOp{Op: "block", A: 1})
 		}
